@@ -36,6 +36,7 @@ pub const SUBS: &[SubDef] = &[
     SubDef { prop: "C04", name: "large", oracle: large },
     SubDef { prop: "C04", name: "huge", oracle: huge },
     SubDef { prop: "C04", name: "body_direct", oracle: body_direct },
+    SubDef { prop: "C04", name: "equality", oracle: equality },
 ];
 
 fn run(ctx: &Ctx) {
@@ -45,6 +46,7 @@ fn run(ctx: &Ctx) {
     ctx.run_tape("large", large, ctx.pick(48, 600), 64);
     ctx.run_tape("huge", huge, ctx.pick(2, 48), 64);
     ctx.run_tape("body_direct", body_direct, ctx.pick(60_000, 300_000), 200);
+    ctx.run_tape("equality", equality, ctx.pick(120_000, 500_000), 500);
 }
 
 fn ptr_off(base: &[u8], s: &[u8]) -> usize {
@@ -257,6 +259,43 @@ fn big_body(t: &mut Tape, n: usize, obs: &mut Obs) -> R {
     check_roundtrip(&h, &tail, obs)
 }
 
+/// "returns exactly that value" is decided by comparing values, and callers compare decoded messages with `==`: two encodings that
+/// decode to field-wise different values must not compare equal, and one encoding decoded twice must compare equal.
+fn equality(t: &mut Tape, obs: &mut Obs) -> R {
+    let h = gen_hs(t, 300);
+    let a = h.to_bytes();
+    if a.len() <= 4 {
+        return Ok(());
+    }
+    let mut b = a.clone();
+    // one byte of the body changed; weighted towards the end (padding, trailing opaque fields) and the start (fixed fields)
+    let blen = a.len() - 4;
+    let pos = 4 + match t.weighted(&[4, 2, 2]) {
+        0 => t.below(blen),
+        1 => blen - 1 - t.below(blen.min(8)),
+        _ => t.below(blen.min(8)),
+    };
+    b[pos] = b[pos].wrapping_add(1 + t.below(255) as u8);
+    let a2 = a.clone();
+    let verdict = guard("parse_tls_message_handshake", || {
+        let (ra, rb, ra2) = (parse_tls_message_handshake(&a), parse_tls_message_handshake(&b), parse_tls_message_handshake(&a2));
+        match (&ra, &rb, &ra2) {
+            (Ok((_, ma)), Ok((_, mb)), Ok((_, ma2))) => Some((conv::msg(ma) != conv::msg(mb), ma == mb, ma != mb, ma == ma2, ma != ma2, format!("{:?}", ma), format!("{:?}", mb))),
+            _ => None,
+        }
+    })?;
+    if let Some((differ, eq, ne, same_eq, same_ne, da, db)) = verdict {
+        let k = h.kind_name();
+        ensure!(same_eq && !same_ne, format!("C04:equality:{}:same-bytes-unequal", k), "{}: one encoding decoded twice gives values that do not compare equal: {}", k, trunc(&da));
+        if differ {
+            obs.nontrivial(fnv64(&b));
+            obs.sample_class(k, || json!({"kind": k, "changed_byte": pos, "message_bytes": a.len()}));
+            ensure!(!eq && ne, format!("C04:equality:{}:different-values-compare-equal", k), "{}: two encodings differing in byte {} decode to different values but the values compare equal (== {}, != {}): {} vs {}", k, pos, eq, ne, trunc(&da), trunc(&db));
+        }
+    }
+    Ok(())
+}
+
 fn expect_rejected(what: &str, msg: &[u8], tail: &[u8], obs: &mut Obs) -> R {
     let mut buf = msg.to_vec();
     buf.extend_from_slice(tail);
@@ -433,7 +472,8 @@ pub fn gen_invalid(t: &mut Tape) -> Option<(String, Vec<u8>)> {
             // length of the mandatory part of this body
             let mand = match &h {
                 MHs::ClientHello { ext, .. } | MHs::ServerHello { ext, .. } | MHs::ServerHelloD18 { ext, .. } | MHs::HelloRetryRequest { ext, .. } => body.len() - ext.as_ref().map_or(0, |x| x.len() + 2),
-                MHs::CertificateRequest { types, .. } => 1 + types.len(),
+                // both layouts (with and without signature algorithms) need at least one more 2-byte length after the certificate types
+                MHs::CertificateRequest { types, .. } => 1 + types.len() + 2,
                 _ => body.len(),
             };
             if mand == 0 {
